@@ -71,14 +71,15 @@ def one_workload(ctx, idx, memkb, scratch, depth, torn, nest_every):
     # merge
     merged = os.path.join(ctx.work, "merged-%d.ndjson" % idx)
     with open(merged, "w") as f:
+        # the crash image after I/O call k is judged at the event of call k; the torn variants of the NEXT log write
+        # (call k+1) are judged at the event of call k+1, against the state just before it - by then the transactions
+        # whose records that write carries have begun, written and (if so) started to commit in the model as well
         for e in ev:
-            if e["ev"] in ("WLog", "WPage", "GC") and e["io"] in probes and not probes[e["io"]].get("partial"):
-                e["probe"] = probes[e["io"]]["probe"]
-                if probes[e["io"]]["torn"]:
-                    e["torn"] = probes[e["io"]]["torn"]
-            elif e["ev"] in ("WLog", "WPage", "GC") and e["io"] in probes:
-                e["torn"] = probes[e["io"]]["torn"]
-                e["probe"] = probes[e["io"]]["probe"]
+            if e["ev"] in ("WLog", "WPage", "GC"):
+                if e["io"] in probes and not probes[e["io"]].get("partial"):
+                    e["probe"] = probes[e["io"]]["probe"]
+                if e["ev"] == "WLog" and (e["io"] - 1) in probes and probes[e["io"] - 1]["torn"]:
+                    e["torn"] = probes[e["io"] - 1]["torn"]
             f.write(json.dumps(e) + "\n")
     os.remove(tr)
     return merged, nprobes, nio - io0
